@@ -122,26 +122,32 @@ class AddressAg(AddressBase):
         line = h.init_line(line)
         line_d = parsers.parse_address(line)
         line = line_d["address"]
-        self._sequence = h.init_int(line_d["sequence"])
+        state = (self._sequence, self._type, self._addrgroup, self._wildcard)
+        try:
+            self._sequence = h.init_int(line_d["sequence"])
 
-        if self._is_address_any(line):
-            if self._platform == "nxos":
-                self._line__prefix("0.0.0.0/0")
+            if self._is_address_any(line):
+                if self._platform == "nxos":
+                    self._line__prefix("0.0.0.0/0")
+                else:
+                    raise ValueError(f"invalid address {line=}")
+            elif self._is_address_prefix(line):
+                self._line__prefix(line)
+            elif self._is_address_wildcard(line):
+                if self._platform == "nxos":
+                    self._line__wildcard(line)
+                else:  # ios
+                    self._line__subnet(line)
+            elif self._is_address_host(line):
+                self._line__host(line)
+            elif self._is_addrgroup(line):
+                self._line_addrgroup(line)
             else:
                 raise ValueError(f"invalid address {line=}")
-        elif self._is_address_prefix(line):
-            self._line__prefix(line)
-        elif self._is_address_wildcard(line):
-            if self._platform == "nxos":
-                self._line__wildcard(line)
-            else:  # ios
-                self._line__subnet(line)
-        elif self._is_address_host(line):
-            self._line__host(line)
-        elif self._is_addrgroup(line):
-            self._line_addrgroup(line)
-        else:
-            raise ValueError(f"invalid address {line=}")
+        except ValueError:
+            # a rejected line leaves the address as it was
+            self._sequence, self._type, self._addrgroup, self._wildcard = state
+            raise
 
     @property
     def platform(self) -> str:
